@@ -53,9 +53,11 @@ def _violate(fmt, recs, r, cls):
     if cls == 'int':
         p = recs[r][0].split(b'\t')
         # characters above '9' and below '0', at the start, inside and at the end of the field
-        kind = (r + len(recs)) % 7
+        kind = (r + len(recs)) % 10
         p[1] = [p[1] + b'z', b'?' + p[1], p[1][:1] + b'.' + p[1][1:], p[1][:1] + b'-' + p[1][1:], p[1][:1] + b' ' + p[1][1:],
-                p[1] + b',', p[1][:1] + b'/' + p[1][1:]][kind]
+                p[1] + b',', p[1][:1] + b'/' + p[1][1:],
+                # long values whose last 19 characters are digits (a 64-bit integer has at most 19 digits)
+                b'x1234567890123456789', b'1e0000000000000000003', b'chr7:0000000000000012345'][kind]
         recs[r][0] = b'\t'.join(p)
     elif cls == 'score':
         p = recs[r][0].rstrip(b'\n').split(b'\t')
@@ -124,7 +126,12 @@ def generate(tier, seed):
                     if k < 0:
                         continue
                     route = rng.choice(['seek', 'prepend', 'file', 'gz']) if k else rng.choice(['seek', 'file', 'gz'])
-                    cases.append(dict(fmt=fmt, data=data.hex(), k=k, lazy=bool((k + n + (r or 0)) % 2), route=route,
+                    # '#' comment lines before the data (delimited formats): line numbers count from the start of the
+                    # DATA, whatever precedes it
+                    header = b''
+                    if fmt in ('bed3', 'bed6', 'bdg') and (k + n) % 3 == 0:
+                        header = [b'#one comment line\n', b'#first\n#second comment line\n', b'# c\n'][(k + (r or 0)) % 3]
+                    cases.append(dict(fmt=fmt, data=data.hex(), header=header.hex(), k=k, lazy=bool((k + n + (r or 0)) % 2), route=route,
                                       cls=cls, r=r, n=n, expected=expected, rec_size=max(len(b''.join(x)) for x in recs)))
     return cases
 
@@ -143,7 +150,7 @@ def observe(case):
     from bionumpy.io.parser import NumpyFileReader
     from bionumpy.io.npdataclassreader import NpDataclassReader
     from bionumpy.io.exceptions import FormatException
-    data = bytes.fromhex(case['data'])
+    data = bytes.fromhex(case.get('header', '')) + bytes.fromhex(case['data'])
     d = None
     try:
         if case['route'] in ('seek', 'prepend'):
